@@ -631,6 +631,50 @@ func TestVerifC04(t *testing.T) {
 	res.Bounds["K.flags"] = "all 8 AD/CD/DO combinations"
 	res.Bounds["K.class_sweep"] = fmt.Sprintf("all 65536 classes x types %v x 8 flags x %d name(s)", sweepTypes, len(sweepNames))
 
+	// helpers of the behaviour passes (B); B5 is cheap and runs first so that a slow machine cannot starve it
+	unit := int64(0)
+	mine := func() bool { unit++; return e.Mine(unit - 1) }
+	bOut := func(scn, k string) { res.Outcomes["exec/"+scn+"/"+k]++ }
+	var execs int64
+	expired := func(what string) bool {
+		if e.Expired() {
+			if res.Exhaustive {
+				res.Notes = append(res.Notes, "B: budget expired before "+what)
+			}
+			res.Exhaustive = false
+			return true
+		}
+		return false
+	}
+
+	// B5: two caches in one sequence with a plugin between them that runs the rest
+	// of the chain for another question first (the shape of prefer_ipv4/6 and
+	// redirect): what the second cache serves must belong to the question it sees.
+	b5names := []int{0, 2, 4}
+	b5xor := []uint16{1 ^ 28, 1, 0x8000}
+	if thorough {
+		b5names = []int{0, 1, 2, 3, 4, 5, 8, 9}
+		b5xor = []uint16{1 ^ 28, 1, 2, 0x0100, 0x8000, 0xffff}
+	}
+	res.Bounds["B5.chained_caches"] = fmt.Sprintf("cache -> fork(type xor %v) -> cache -> upstream; %d names x types {1,28,255} x classes {1,3} x 8 flags; each base asked twice, alternating with its forked twin", b5xor, len(b5names))
+	for _, n := range b5names {
+		for _, ty := range []uint16{1, 28, 255} {
+			for _, c := range []uint16{1, 3} {
+				for f := uint8(0); f < 8; f++ {
+					for _, x := range b5xor {
+						if !mine() || expired("all chained-cache groups were done") {
+							continue
+						}
+						q := c04q{N: n, T: ty, C: c, F: f}
+						tw := q
+						tw.T ^= x
+						execs += s.chained([]c04q{q, tw, q, tw}, x, func(k string) { bOut("chained-caches", k) })
+						res.States += 4
+					}
+				}
+			}
+		}
+	}
 	// ------------------------------------------------------------ K: key injectivity
 	keyer := c04newKeyer()
 	seed := maphash.MakeSeed() // process-local table hash; the shard function below is deterministic
@@ -783,22 +827,7 @@ func TestVerifC04(t *testing.T) {
 	res.States += distinct
 	tbl = nil
 
-	// ------------------------------------------------------------ B: behaviour through Cache.Exec
-	unit := int64(0)
-	mine := func() bool { unit++; return e.Mine(unit - 1) }
-	bOut := func(scn, k string) { res.Outcomes["exec/"+scn+"/"+k]++ }
-	var execs int64
-	expired := func(what string) bool {
-		if e.Expired() {
-			if res.Exhaustive {
-				res.Notes = append(res.Notes, "B: budget expired before "+what)
-			}
-			res.Exhaustive = false
-			return true
-		}
-		return false
-	}
-
+	// ------------------------------------------------------------ B: behaviour through Cache.Exec (B5 ran first, see above)
 	// B1: all 65536 types on one cache, two passes, ascending and descending
 	type base struct {
 		n int
@@ -917,34 +946,6 @@ func TestVerifC04(t *testing.T) {
 						r.close()
 					}
 					res.States += int64(len(grp))
-				}
-			}
-		}
-	}
-	// B5: two caches in one sequence with a plugin between them that runs the rest
-	// of the chain for another question first (the shape of prefer_ipv4/6 and
-	// redirect): what the second cache serves must belong to the question it sees.
-	b5names := []int{0, 2, 4}
-	b5xor := []uint16{1 ^ 28, 1, 0x8000}
-	if thorough {
-		b5names = []int{0, 1, 2, 3, 4, 5, 8, 9}
-		b5xor = []uint16{1 ^ 28, 1, 2, 0x0100, 0x8000, 0xffff}
-	}
-	res.Bounds["B5.chained_caches"] = fmt.Sprintf("cache -> fork(type xor %v) -> cache -> upstream; %d names x types {1,28,255} x classes {1,3} x 8 flags; each base asked twice, alternating with its forked twin", b5xor, len(b5names))
-	for _, n := range b5names {
-		for _, ty := range []uint16{1, 28, 255} {
-			for _, c := range []uint16{1, 3} {
-				for f := uint8(0); f < 8; f++ {
-					for _, x := range b5xor {
-						if !mine() || expired("all chained-cache groups were done") {
-							continue
-						}
-						q := c04q{N: n, T: ty, C: c, F: f}
-						tw := q
-						tw.T ^= x
-						execs += s.chained([]c04q{q, tw, q, tw}, x, func(k string) { bOut("chained-caches", k) })
-						res.States += 4
-					}
 				}
 			}
 		}
